@@ -63,15 +63,15 @@ def check(prog, rep):
     pub = m.funcs.get('regions')
     if pub is None:
         raise AnalysisIncomplete('zonal.regions not found')
-    kcall = None
-    for n in pub.own_nodes():
-        if isinstance(n, ast.Call):
-            t = prog.resolve_callable(pub, m, n.func)
-            if isinstance(t, Func) and t.jit is not None:
-                kcall = (n, t)
-    if kcall is None:
-        raise AnalysisIncomplete('regions: labelling kernel call not found')
-    call, f = kcall
+    # the labelling kernel call, as wrapper terms (through helpers, positional or keyword arguments)
+    from ..wterm import WT
+    wt = WT(prog)
+    wret = wt.run(pub)
+    kcs = [x for x in wt.calls if isinstance(x.callee, Func) and x.callee.jit is not None]
+    if len(kcs) != 1:
+        raise AnalysisIncomplete('regions: labelling kernel call not found (%d jitted callees)' % len(kcs))
+    kc = kcs[0]
+    call, f = kc.node, kc.callee
     entry = 'regions'
     k = interpret(prog, f, strict=False)
     outs = returned_arrays(k)
@@ -80,8 +80,13 @@ def check(prog, rep):
     c = Ctx()
     c.rep, c.f, c.entry, c.k = rep, f, entry, k
     c.out = outs[0]
-    c.data = f.params[0]
-    c.nparam = f.params[1] if len(f.params) > 1 else None
+    # parameter roles from what the wrapper passes: the raster's data, and the caller's neighbourhood size
+    datap = [p for p, t in kc.bound.items() if t == ('data', ('param', pub.params[0]))]
+    npar = [p for p, t in kc.bound.items() if t[0] == 'param' and t[1] != pub.params[0]]
+    if len(datap) != 1 or len(npar) != 1:
+        raise AnalysisIncomplete('regions: kernel arguments not understood (data %s, neighbourhood %s)' % (datap, npar))
+    c.data, c.nparam = datap[0], npar[0]
+    c.wt, c.kc, c.wret, c.nbh = wt, kc, wret, kc.bound[npar[0]][1]
     c.rows, c.cols = App('shape', [c.data, 0]), App('shape', [c.data, 1])
     tops = []
     for s in k.stores:
@@ -112,11 +117,23 @@ def check(prog, rep):
     check_pass1(c)
     check_pass2(c)
     check_dtypes(prog, rep, f, pub, call, entry, c)
-    # n validated
-    ok = any(isinstance(s, ast.If) and 'not in (4, 8)' in norm(s.test) and any(isinstance(x, ast.Raise) for x in s.body)
-             for s in pub.own_nodes())
-    rep.add('R1', pub, entry, 'neighborhood validated to be 4 or 8', pub.node.lineno, ok,
-            'other neighbourhood sizes would silently use the 4-table with a wrong window length')
+    # n validated: the public function raises exactly for sizes other than 4 and 8
+    from ..wterm import eval_cond
+    res = {}
+    for v in (4, 8, 6, 0):
+        hit = False
+        for guards, node in wt.raises:
+            vals = []
+            for g in guards:
+                try:
+                    vals.append(eval_cond(g, {c.nbh: v}))
+                except (ValueError, KeyError):
+                    continue
+            if vals and all(vals) and ("('param', '%s')" % c.nbh) in repr(guards[-1]):
+                hit = True
+        res[v] = hit
+    rep.add('R1', pub, entry, 'neighborhood validated to be 4 or 8', pub.node.lineno, res == {4: False, 8: False, 6: True, 0: True},
+            'other neighbourhood sizes would silently use the 4-table with a wrong window length; raises for %s' % sorted(v for v, h in res.items() if h))
     rep.floor('R1', 10)
     rep.floor('R2', 4)
     rep.floor('R3', 3)
@@ -315,6 +332,8 @@ def check_pass1(c):
                 env[a] = F(1 if state['found'] is None else 0)
         if state['found'] is not None:
             env[found] = F(state['found'])
+        elif getattr(c, 'sentinel', None) is not None:
+            env[found] = F(c.sentinel)
         vals = []
         for s in stores:
             if _all_true(s.guards[Lx.gdepth:], env):
@@ -355,8 +374,15 @@ def check_search(c, L, name):
         return
     line = L.node.lineno
     pre = L.pre.get(name)
-    rep.add('R2', f, entry, '%s is None before the search' % name, line, pre == Rat.atom(NONE),
-            'the found label must start as None: a stale label of the previous cell would be copied')
+    # "nothing found" is None, or a constant that cannot be a label (labels are positive)
+    sent = None
+    if isinstance(pre, Rat) and pre != Rat.atom(NONE) and pre.is_const() and pre.const_value() <= 0:
+        sent = pre.const_value()
+    c.sentinel = sent
+    rep.add('R2', f, entry, '%s is %s before the search' % (name, 'None' if sent is None else sent), line,
+            pre == Rat.atom(NONE) or sent is not None,
+            'the found label must start as "nothing found" (None, or a constant that is no label) for every cell: a stale '
+            'label of the previous cell would be copied')
     phi, post = L.carried[name]
     patom = next(iter(phi.atoms()))
     atoms = walk_atoms(post)
@@ -383,6 +409,8 @@ def check_search(c, L, name):
             env[a] = F(1 if prior is None else 0)
         if prior is not None:
             env[patom] = F(prior)
+        elif sent is not None:
+            env[patom] = F(sent)
         try:
             taken = [(g, v) for g, v in paths if _all_true(g, env)]
             if taken:
@@ -392,6 +420,8 @@ def check_search(c, L, name):
             else:
                 left = False
                 res = None if (prior is None and post == phi) else evaluate(post, env)
+            if sent is not None and res == sent:
+                res = None
         except CannotEvaluate as e:
             rep.add('R2', f, entry, 'search step, ' + title, line, None, 'not evaluable: %s' % e)
             continue
@@ -573,17 +603,13 @@ def check_dtypes(prog, rep, f, pub, call, entry, c):
                 'the array receives the running region counter: it must have a fixed wide dtype (float64 / int64), never '
                 'the input raster\'s own dtype - a uint8 raster with more than 255 regions would wrap labels (and reuse 0)')
     # Q1 (wrapper): the label image may only be cast to a fixed wide dtype afterwards
-    res = None
-    for n in pub.own_nodes():
-        if isinstance(n, ast.Assign) and n.value is call and isinstance(n.targets[0], ast.Name):
-            res = n.targets[0].id
-    casts = [cl for cl in calls(pub.node) if short(cl) == 'astype' and isinstance(cl.func, ast.Attribute) and
-             res is not None and norm(cl.func.value) == res]
-    for cl in casts:
-        dt = norm(cl.args[0]) if cl.args else None
-        rep.add('Q1', pub, entry, norm(cl), cl.lineno, dt in WIDE_OK,
-                'the label image counts regions: it may only be converted to a fixed wide dtype, never back to the input '
-                'raster\'s dtype (int8 holds 127 labels, uint8 255)')
+    from ..wterm import key as tkey, walk as twalk
+    for t in twalk(c.wret) if c.wret is not None else []:
+        if isinstance(t, tuple) and t and t[0] == 'cast' and any(tkey(x) == tkey(c.kc.result) for x in twalk(t[1])):
+            dt = t[2][1] if t[2][0] in ('global', 'const') else None
+            rep.add('Q1', pub, entry, 'labels.astype(%s)' % (dt,), call.lineno, dt in WIDE_OK or repr(dt) in WIDE_OK,
+                    'the label image counts regions: it may only be converted to a fixed wide dtype, never back to the input '
+                    'raster\'s dtype (int8 holds 127 labels, uint8 255)')
     # Q2: the matching predicates P(window value w, cell value v) collected from both passes
     flags = set()
     preds = getattr(c, 'predicates', [])
@@ -647,15 +673,14 @@ def check_dtypes(prog, rep, f, pub, call, entry, c):
                 len({canon(P) for P, _ in preds}) == 1, 'pass 1 and pass 2 must agree on which neighbours match')
     # the flag is computed from the raster's dtype in the wrapper
     for fl in sorted(flags):
-        actual = None
-        for kk in call.keywords:
-            if kk.arg == fl:
-                actual = kk.value
-        if actual is None and fl in f.params and f.params.index(fl) < len(call.args):
-            actual = call.args[f.params.index(fl)]
-        t = norm(_inline_locals(pub, actual)).replace(' ', '') if actual is not None else ''
-        ok = 'np.issubdtype(' in t and '.dtype,np.integer)' in t and pub.params[0] in t
-        rep.add('Q2', pub, entry, '%s = %s' % (fl, t or None), call.lineno, ok,
+        got = c.kc.bound.get(fl)
+        env = {'raster': ('param', pub.params[0])}
+        wants = [c.wt.expr(t_, env, pub) for t_ in ('bool(np.issubdtype(raster.data.dtype, np.integer))',
+                                                     'np.issubdtype(raster.data.dtype, np.integer)',
+                                                     'bool(np.issubdtype(raster.dtype, np.integer))',
+                                                     'np.issubdtype(raster.dtype, np.integer)')]
+        ok = got is not None and any(tkey(got) == tkey(x) for x in wants)
+        rep.add('Q2', pub, entry, '%s = %s' % (fl, tkey(got)[:120] if got is not None else None), call.lineno, ok,
                 'the exact-matching flag must be true exactly for integer-typed rasters (np.issubdtype(raster dtype, np.integer))')
 
 
